@@ -379,3 +379,120 @@ func VP_C07_builtins() {
 	vpAssert("C07/builtins/no-write-to-caller-data", vpWrites() == 0)
 	vpReach("C07/builtins/done")
 }
+
+func init() {
+	vpHarnesses["VP_C07_operators"] = VP_C07_operators
+	vpHarnesses["VP_C07_rebind"] = VP_C07_rebind
+}
+
+// C07/operators: no operator changes a number it reads: after `$a = num, FORM`
+// the local and the caller's number still hold the bound value, for every
+// operator and several operand shapes (bare, prefixed, parenthesised, both sides).
+func VP_C07_operators() {
+	pool := []struct {
+		c int64
+		s int
+	}{{5, 0}, {25, 1}, {-7, 0}, {0, 0}, {1234567890123456789, 2}}
+	pv := pool[vpChoice("x", len(pool))]
+	num := new(decimal.Big).SetMantScale(pv.c, pv.s)
+	ops := []string{"+", "-", "*", "/", "%", "&", "|", "^", "<", "==", "===", "&&", "||", "??"}
+	forms := []string{"$a OP 2", "+$a OP 2", "-$a OP 2", "($a) OP 2", "2 OP $a", "2 OP +$a", "+num OP 2", "num OP 2", "$a OP $a", "+$a OP +num", "+(+$a) OP 1.5", "($b = $a) OP 2"}
+	singles := []string{"+$a", "-$a", "~$a", "!$a", "!!$a", "+num", "-num", "~num", "typeof $a", "$a ? $a : num", "+$a ? +$a : 0"}
+	var form string
+	if vpBool("single") {
+		form = singles[vpChoice("form", len(singles))]
+	} else {
+		f := forms[vpChoice("form", len(forms))]
+		op := ops[vpChoice("op", len(ops))]
+		form = ""
+		for i := 0; i < len(f); i++ {
+			if i+1 < len(f) && f[i] == 'O' && f[i+1] == 'P' {
+				form += op
+				i++
+			} else {
+				form += string(f[i])
+			}
+		}
+	}
+	src := "$a = num, (" + form + "), [$a, num]"
+	code, perr := ParseSourceCode([]byte(src))
+	vpAssert("C07/operators/parses", perr == nil)
+	if perr != nil {
+		return
+	}
+	data := map[string]interface{}{"num": num}
+	vpFreeze("data", data)
+	vpAllowDollarKeys("data")
+	r := NewRunner()
+	r.SetThis(data)
+	got, err := r.resolve(context.Background(), code.Expression)
+	vpObserve("form", form, err != nil)
+	neg, coef := pv.c < 0, uint64(pv.c)
+	if neg {
+		coef = uint64(-pv.c)
+	}
+	if err == nil {
+		arr, ok := got.([]interface{})
+		if !ok || len(arr) != 2 {
+			vpAssert("C07/operators/yields-pair", false)
+			return
+		}
+		a, ok1 := arr[0].(*decimal.Big)
+		vpAssert("C07/operators/local-still-has-bound-value", ok1 && vpBigEq(a, neg, coef, -pv.s))
+	}
+	// also after an evaluation that failed (e.g. % on a fraction): the caller's number is untouched
+	vpAssert("C07/operators/caller-number-unchanged", vpBigEq(num, neg, coef, -pv.s) && (num.Signbit() == neg || coef == 0))
+	if v2, err2 := r.resolve(context.Background(), vpId("$a")); err2 == nil {
+		a2, ok := v2.(*decimal.Big)
+		vpAssert("C07/operators/later-read-sees-bound-value", ok && vpBigEq(a2, neg, coef, -pv.s))
+	}
+	vpAssert("C07/operators/no-write-to-caller-data", vpWrites() == 0)
+	vpReach("C07/operators/done")
+}
+
+// C07/rebind: later evaluations by the same runner see a binding until another
+// assignment succeeds: a re-assignment whose right-hand side fails with an
+// error leaves the earlier binding in place.
+func VP_C07_rebind() {
+	first := []string{"$a = 5", "$a = 'v'", "$a = x", "($a = 1, $a = 2)"}
+	firstWant := []interface{}{5, "v", 7, 2}
+	failing := []string{"$a = nofn()", "$a = null!.k", "$a = x.k!.j", "$a = left('abc', -1)", "$a = 1 + nofn()", "[$b = 3, $a = nofn()]", "$a = ($c = 4, nofn())"}
+	fi := vpChoice("first", len(first))
+	gi := vpChoice("failing", len(failing))
+	r := NewRunner()
+	if vpBool("withData") {
+		r.SetThis(map[string]interface{}{"x": 7})
+	} else {
+		r.SetThisValue("x", 7)
+	}
+	ev := func(src string) (interface{}, error) {
+		code, perr := ParseSourceCode([]byte(src))
+		if perr != nil {
+			return nil, perr
+		}
+		return r.resolve(context.Background(), code.Expression)
+	}
+	_, err1 := ev(first[fi])
+	vpAssert("C07/rebind/first-assignment-succeeds", err1 == nil)
+	_, err2 := ev(failing[gi])
+	vpAssert("C07/rebind/failing-assignment-is-an-error", err2 != nil)
+	v, err3 := ev("$a")
+	same := func(v interface{}, want interface{}) bool {
+		switch w := want.(type) {
+		case int:
+			g, ok := v.(*decimal.Big)
+			return ok && vpBigEq(g, false, uint64(w), 0)
+		case string:
+			g, ok := v.(string)
+			return ok && g == w
+		}
+		return false
+	}
+	vpObserve("rebind", fi, gi, vpShowValue(v))
+	vpAssert("C07/rebind/earlier-binding-still-visible", err3 == nil && same(v, firstWant[fi]))
+	if gi == 5 {
+		b, errb := ev("$b")
+		vpAssert("C07/rebind/bindings-made-before-the-error-are-visible", errb == nil && same(b, 3))
+	}
+	vpReach("C07/rebind/done")
+}
